@@ -453,6 +453,10 @@ func lex(s []rune) (typ itemType, n int) {
 
 		case stateDollar:
 			switch {
+			case r == '$':
+				// a '$' without a name is text but the next one may start
+				// a field: "$$response_status" is "$" and the status
+				return itemText, i
 			case isIDChar(r):
 				state = stateField
 			default:
